@@ -285,4 +285,509 @@ theorem unsigned_roundtrip (v : Nat) (hv : v < 2 ^ 64) (rest : Bytes) :
   have := unsigned_complete (encodeU v) rest henc hlen (by omega)
   rw [hval] at this; exact this
 
+
+theorem or_step' (result low s M : Nat) (hr : result < 2 ^ s) (hfit : low * 2 ^ s < M) :
+    result ||| ((low <<< s) % M) = result + 2 ^ s * low := by
+  rw [Nat.shiftLeft_eq, Nat.mod_eq_of_lt hfit, Nat.or_comm, ← Nat.shiftLeft_eq,
+    ← Nat.shiftLeft_add_eq_or_of_lt hr, Nat.shiftLeft_eq]
+  rw [Nat.mul_comm]; omega
+
+theorem u16_two (b0 b1 : UInt8) :
+    (b0.toNat % 128) ||| (((b1.toNat % 128) <<< 7) % 2 ^ 16) = b0.toNat % 128 + 128 * (b1.toNat % 128) := by
+  have := or_step' (b0.toNat % 128) (b1.toNat % 128) 7 (2 ^ 16) (by omega) (by omega)
+  simpa using this
+
+theorem u16_sound (bs : Bytes) (v : Nat) (rest : Bytes) (h : u16 bs = .ok (v, rest)) :
+    ∃ pre, bs = pre ++ rest ∧ IsLebEnc pre ∧ pre.length ≤ 3 ∧ v = ulebVal pre ∧ v < 2 ^ 16 := by
+  unfold u16 at h
+  split at h
+  · simp at h
+  · rename_i b0 r0
+    split at h
+    · rename_i hb0
+      simp only [Out.ok.injEq, Prod.mk.injEq] at h
+      refine ⟨[b0], by simp [h.2], by simpa [IsLebEnc] using hb0, by simp, ?_, by omega⟩
+      simp only [ulebVal]; omega
+    · rename_i hb0
+      split at h
+      · simp at h
+      · rename_i b1 r1
+        simp only [u16_two] at h
+        split at h
+        · rename_i hb1
+          simp only [Out.ok.injEq, Prod.mk.injEq] at h
+          refine ⟨[b0, b1], by simp [h.2], ⟨by omega, by simpa [IsLebEnc] using hb1⟩, by simp, ?_, by omega⟩
+          simp only [ulebVal]; omega
+        · rename_i hb1
+          split at h
+          · simp at h
+          · rename_i b2 r2
+            split at h
+            · simp at h
+            · rename_i hb2
+              simp only [Out.ok.injEq, Prod.mk.injEq] at h
+              have hsh : (b2.toNat <<< 14) % 2 ^ 16 = b2.toNat * 16384 := by
+                rw [Nat.shiftLeft_eq]; exact Nat.mod_eq_of_lt (by omega)
+              rw [hsh] at h
+              refine ⟨[b0, b1, b2], by simp [h.2], ⟨by omega, by omega, by simp [IsLebEnc]; omega⟩, by simp, ?_, by omega⟩
+              simp only [ulebVal]; omega
+
+theorem u16_complete (pre rest : Bytes) (henc : IsLebEnc pre) (hlen : pre.length ≤ 3)
+    (hfit : ulebVal pre < 2 ^ 16) : u16 (pre ++ rest) = .ok (ulebVal pre, rest) := by
+  match pre, henc, hlen, hfit with
+  | [b0], henc, _, _ =>
+    simp only [IsLebEnc] at henc
+    simp [u16, henc, ulebVal, Nat.mod_eq_of_lt henc]
+  | [b0, b1], henc, _, _ =>
+    simp only [IsLebEnc] at henc
+    have h0 : ¬ b0.toNat < 128 := by omega
+    simp only [List.cons_append, List.nil_append, u16, h0, if_false, u16_two, henc.2, if_true, ulebVal]
+    have : b1.toNat % 128 = b1.toNat := Nat.mod_eq_of_lt henc.2
+    simp [this]
+  | [b0, b1, b2], henc, _, hfit =>
+    simp only [IsLebEnc] at henc
+    have h0 : ¬ b0.toNat < 128 := by omega
+    have h1 : ¬ b1.toNat < 128 := by omega
+    simp only [ulebVal] at hfit
+    have h2 : ¬ b2.toNat > 3 := by omega
+    have hsh : (b2.toNat <<< 14) % 2 ^ 16 = b2.toNat * 16384 := by
+      rw [Nat.shiftLeft_eq]; exact Nat.mod_eq_of_lt (by omega)
+    simp only [List.cons_append, List.nil_append, u16, h0, h1, h2, if_false, u16_two, hsh, ulebVal]
+    have : b2.toNat % 128 = b2.toNat := Nat.mod_eq_of_lt henc.2.2
+    simp only [this, Out.ok.injEq, Prod.mk.injEq, and_true]; omega
+
+theorem u16_reject (pre rest : Bytes) (henc : IsLebEnc pre)
+    (hbad : 3 < pre.length ∨ 2 ^ 16 ≤ ulebVal pre) :
+    u16 (pre ++ rest) = .err .rBadUnsignedLeb128 := by
+  match pre, henc, hbad with
+  | [b0], henc, hbad =>
+    simp only [IsLebEnc] at henc; simp [ulebVal] at hbad; omega
+  | [b0, b1], henc, hbad =>
+    simp only [IsLebEnc] at henc; simp [ulebVal] at hbad; omega
+  | [b0, b1, b2], henc, hbad =>
+    simp only [IsLebEnc] at henc
+    have h0 : ¬ b0.toNat < 128 := by omega
+    have h1 : ¬ b1.toNat < 128 := by omega
+    simp only [ulebVal, List.length_cons, List.length_nil] at hbad
+    have h2 : b2.toNat > 3 := by omega
+    simp [u16, h0, h1, h2]
+  | b0 :: b1 :: b2 :: b3 :: tl, henc, _ =>
+    simp only [IsLebEnc] at henc
+    have h0 : ¬ b0.toNat < 128 := by omega
+    have h1 : ¬ b1.toNat < 128 := by omega
+    have h2 : b2.toNat > 3 := by omega
+    simp [u16, h0, h1, h2]
+
+
+/-- last element with a default -/
+def lastB : Bytes → UInt8
+  | [] => 0
+  | [b] => b
+  | _ :: c :: tl => lastB (c :: tl)
+
+theorem lastB_append_cons (a : Bytes) (b : UInt8) (tl : Bytes) : lastB (a ++ b :: tl) = lastB (b :: tl) := by
+  induction a with
+  | nil => rfl
+  | cons x a ih =>
+    cases a with
+    | nil => simp [lastB]
+    | cons y a => simpa [lastB] using ih
+
+/-- the condition under which the 64-bit signed reader accepts a complete number `full` -/
+def SFits (full : Bytes) : Prop :=
+  full.length ≤ 10 ∧ (full.length = 10 → (lastB full).toNat = 0 ∨ (lastB full).toNat = 0x7f)
+
+theorem signedLoop_complete (pre : Bytes) : ∀ (rest acc : Bytes),
+    IsLebEnc pre → SFits (acc ++ pre) →
+    signedLoop (pre ++ rest) (ulebVal acc) (7 * acc.length) =
+      .ok (ulebVal (acc ++ pre) % 2 ^ 64, 7 * (acc ++ pre).length, lastB pre, rest) := by
+  induction pre with
+  | nil => intro _ _ h; simp [IsLebEnc] at h
+  | cons b tl ih =>
+    intro rest acc henc hfits
+    have hs := ulebVal_lt acc
+    obtain ⟨hlen, hlast⟩ := hfits
+    simp only [List.length_append, List.length_cons] at hlen hlast
+    rw [List.cons_append, signedLoop]
+    cases tl with
+    | nil =>
+      simp only [IsLebEnc] at henc
+      simp only [List.length_nil] at hlen hlast
+      have hlast' : acc.length = 9 → b.toNat = 0 ∨ b.toNat = 0x7f := by
+        intro h9
+        have := hlast (by omega)
+        rwa [lastB_append_cons] at this
+      have hc : ¬ (7 * acc.length = 63 ∧ b.toNat ≠ 0 ∧ b.toNat ≠ 0x7f) := by
+        rintro ⟨h63, h0, h1⟩
+        rcases hlast' (by omega) with h | h <;> omega
+      simp only [hc, if_false, henc, if_true, List.nil_append, lastB]
+      have hval : ulebVal acc ||| ((b.toNat % 128) <<< (7 * acc.length)) % 2 ^ 64 =
+          ulebVal (acc ++ [b]) % 2 ^ 64 := by
+        rw [ulebVal_append]
+        simp only [ulebVal, Nat.mul_zero, Nat.add_zero]
+        by_cases h9 : acc.length = 9
+        · rw [h9] at hs ⊢
+          rcases hlast' h9 with h | h
+          · simp [h]; exact (Nat.mod_eq_of_lt (by omega)).symm
+          · have e1 : (b.toNat % 128) <<< (7 * 9) % 2 ^ 64 = 2 ^ 63 := by rw [h]; decide
+            rw [e1, h]
+            have e2 : ulebVal acc ||| 2 ^ 63 = ulebVal acc + 2 ^ 63 := by
+              have := or_step' (ulebVal acc) 1 63 (2 ^ 64) hs (by decide)
+              simpa [Nat.shiftLeft_eq] using this
+            rw [e2]
+            omega
+        · have hk : acc.length ≤ 8 := by omega
+          have hfit := low_fit (b.toNat % 128) acc.length (Nat.mod_lt _ (by decide)) hk
+          rw [or_step _ _ _ hs (by omega)]
+          have : ulebVal acc + 2 ^ (7 * acc.length) * (b.toNat % 128) < 2 ^ 64 := by
+            have h2 : 2 ^ (7 * acc.length) ≤ 2 ^ 56 := Nat.pow_le_pow_right (by omega) (by omega)
+            rw [Nat.mul_comm]; omega
+          exact (Nat.mod_eq_of_lt this).symm
+      rw [hval]
+      simp [Nat.mul_add]
+    | cons c tl =>
+      simp only [IsLebEnc] at henc
+      obtain ⟨hb, henc'⟩ := henc
+      simp only [List.length_cons] at hlen
+      have hc : ¬ (7 * acc.length = 63 ∧ b.toNat ≠ 0 ∧ b.toNat ≠ 0x7f) := by omega
+      have hnb : ¬ b.toNat < 128 := by omega
+      have hk : acc.length ≤ 8 := by omega
+      have hfit := low_fit (b.toNat % 128) acc.length (Nat.mod_lt _ (by decide)) hk
+      simp only [hc, if_false, hnb]
+      rw [or_step _ _ _ hs (by omega)]
+      have hacc' : ulebVal (acc ++ [b]) = ulebVal acc + 2 ^ (7 * acc.length) * (b.toNat % 128) := by
+        rw [ulebVal_append]; simp [ulebVal]
+      have := ih rest (acc ++ [b]) henc' (by
+        refine ⟨by simp; omega, ?_⟩
+        intro h10
+        have := hlast (by simp at h10 ⊢; omega)
+        rw [List.append_assoc]; simpa using this)
+      rw [hacc'] at this
+      simp only [List.length_append, List.length_cons, List.length_nil] at this
+      rw [show 7 * (acc.length + (0 + 1)) = 7 * acc.length + 7 by omega] at this
+      rw [this]
+      simp [lastB, Nat.add_assoc]
+      omega
+
+
+theorem lastB_concat (init : Bytes) (l : UInt8) : lastB (init ++ [l]) = l := by
+  cases init with
+  | nil => rfl
+  | cons x xs => rw [List.cons_append, ← List.cons_append, lastB_append_cons]; rfl
+
+theorem pow7_succ (k : Nat) : (2 : Nat) ^ (7 * (k + 1)) = 128 * 2 ^ (7 * k) := by
+  rw [Nat.mul_add, Nat.pow_add]; omega
+
+/-- relation between the signed and the unsigned value -/
+theorem slebVal_concat (init : Bytes) (l : UInt8) (hl : l.toNat < 128) :
+    slebVal (init ++ [l]) =
+      (ulebVal (init ++ [l]) : Int) - (if 64 ≤ l.toNat then (2 : Int) ^ (7 * (init.length + 1)) else 0) := by
+  induction init with
+  | nil =>
+    simp only [List.nil_append, slebVal, ulebVal, Nat.mod_eq_of_lt hl, List.length_nil]
+    split <;> simp <;> omega
+  | cons b tl ih =>
+    cases tl with
+    | nil =>
+      simp only [List.cons_append, List.nil_append, slebVal, ulebVal, Nat.mod_eq_of_lt hl,
+        List.length_cons, List.length_nil] at ih ⊢
+      split <;> simp <;> omega
+    | cons c tl =>
+      rw [List.cons_append, List.cons_append, slebVal, ← List.cons_append, ih]
+      simp only [ulebVal, List.cons_append, List.length_cons]
+      have hp : (2 : Int) ^ (7 * (tl.length + 1 + 1 + 1)) = 128 * 2 ^ (7 * (tl.length + 1 + 1)) := by
+        have := pow7_succ (tl.length + 1 + 1)
+        exact_mod_cast this
+      split
+      · rw [hp]; push_cast; omega
+      · push_cast; omega
+
+
+theorem isLebEnc_concat (pre : Bytes) (h : IsLebEnc pre) :
+    ∃ init l, pre = init ++ [l] ∧ l.toNat < 128 := by
+  induction pre with
+  | nil => simp [IsLebEnc] at h
+  | cons b tl ih =>
+    cases tl with
+    | nil => exact ⟨[], b, rfl, by simpa [IsLebEnc] using h⟩
+    | cons c tl =>
+      obtain ⟨init, l, he, hl⟩ := ih h.2
+      exact ⟨b :: init, l, by rw [he]; rfl, hl⟩
+
+theorem signext_aux (U s c : Nat) (hU : U < 2 ^ s) (hc : ((2 ^ 64 - 1) <<< s) % 2 ^ 64 = c <<< s)
+    (hc2 : c <<< s = 2 ^ 64 - 2 ^ s) (hs : 2 ^ s ≤ 2 ^ 64) :
+    U ||| ((2 ^ 64 - 1) <<< s % 2 ^ 64) = U + 2 ^ 64 - 2 ^ s := by
+  rw [hc, Nat.or_comm, ← Nat.shiftLeft_add_eq_or_of_lt hU, hc2]; omega
+
+theorem signext (n U : Nat) (h1 : 1 ≤ n) (h9 : n ≤ 9) (hU : U < 2 ^ (7 * n)) :
+    U ||| ((2 ^ 64 - 1) <<< (7 * n) % 2 ^ 64) = U + 2 ^ 64 - 2 ^ (7 * n) := by
+  have : n = 1 ∨ n = 2 ∨ n = 3 ∨ n = 4 ∨ n = 5 ∨ n = 6 ∨ n = 7 ∨ n = 8 ∨ n = 9 := by omega
+  rcases this with rfl | rfl | rfl | rfl | rfl | rfl | rfl | rfl | rfl
+  · exact signext_aux U _ (2 ^ 57 - 1) hU (by decide) (by decide) (by decide)
+  · exact signext_aux U _ (2 ^ 50 - 1) hU (by decide) (by decide) (by decide)
+  · exact signext_aux U _ (2 ^ 43 - 1) hU (by decide) (by decide) (by decide)
+  · exact signext_aux U _ (2 ^ 36 - 1) hU (by decide) (by decide) (by decide)
+  · exact signext_aux U _ (2 ^ 29 - 1) hU (by decide) (by decide) (by decide)
+  · exact signext_aux U _ (2 ^ 22 - 1) hU (by decide) (by decide) (by decide)
+  · exact signext_aux U _ (2 ^ 15 - 1) hU (by decide) (by decide) (by decide)
+  · exact signext_aux U _ (2 ^ 8 - 1) hU (by decide) (by decide) (by decide)
+  · exact signext_aux U _ (2 ^ 1 - 1) hU (by decide) (by decide) (by decide)
+
+theorem pow7_le63 (n : Nat) (h : n ≤ 9) : (2 : Nat) ^ (7 * n) ≤ 2 ^ 63 :=
+  Nat.pow_le_pow_right (by omega) (by omega)
+
+theorem signed_complete (pre rest : Bytes) (henc : IsLebEnc pre) (hfits : SFits pre) :
+    signed (pre ++ rest) = .ok (slebVal pre, rest) := by
+  obtain ⟨init, l, rfl, hl⟩ := isLebEnc_concat pre henc
+  have hloop := signedLoop_complete (init ++ [l]) rest [] henc (by simpa using hfits)
+  simp only [ulebVal, List.length_nil, Nat.mul_zero, List.nil_append] at hloop
+  unfold signed
+  rw [hloop]
+  simp only [lastB_concat]
+  rw [slebVal_concat init l hl]
+  have hU := ulebVal_lt (init ++ [l])
+  obtain ⟨hlen, hlast⟩ := hfits
+  simp only [List.length_append, List.length_cons, List.length_nil, Nat.zero_add, lastB_concat] at hlen hlast hU ⊢
+  have hsign : (l.toNat / 64) % 2 = 1 ↔ 64 ≤ l.toNat := by omega
+  generalize hUdef : ulebVal (init ++ [l]) = U at *
+  by_cases h10 : init.length + 1 = 10
+  · -- ten bytes: no sign extension step, the last group is 0 or 0x7f
+    have hnot : ¬ (7 * (init.length + 1) < 64 ∧ (l.toNat / 64) % 2 = 1) := by omega
+    simp only [hnot, if_false]
+    have hdec : U = ulebVal init + 2 ^ (7 * init.length) * (l.toNat % 128) := by
+      rw [← hUdef, ulebVal_append]; simp [ulebVal]
+    have hi := ulebVal_lt init
+    have h9 : init.length = 9 := by omega
+    rw [h9] at hdec hi
+    rw [show init.length + 1 = 10 by omega] at *
+    rcases hlast (by omega) with h0 | h7f
+    · have : U = ulebVal init := by rw [hdec, h0]; simp
+      simp only [toI64, Out.ok.injEq, Prod.mk.injEq, and_true]
+      have h64 : ¬ 64 ≤ l.toNat := by omega
+      simp only [h64, if_false]
+      have : U % 2 ^ 64 = U := Nat.mod_eq_of_lt (by omega)
+      rw [Nat.mod_mod, this]; simp; omega
+    · have hU' : U = ulebVal init + 2 ^ 63 * 127 := by rw [hdec, h7f]
+      simp only [toI64, Out.ok.injEq, Prod.mk.injEq, and_true]
+      have h64 : 64 ≤ l.toNat := by omega
+      simp only [h64, if_true]
+      have : U % 2 ^ 64 = ulebVal init + 2 ^ 63 := by rw [hU']; omega
+      rw [Nat.mod_mod, this]
+      have hnl : ¬ ulebVal init + 2 ^ 63 < 2 ^ 63 := by omega
+      rw [if_neg hnl]
+      have h70 : (2 : Int) ^ (7 * 10) = 128 * 2 ^ 63 := by decide
+      rw [h70]
+      omega
+  · have hn9 : init.length + 1 ≤ 9 := by omega
+    have hp := pow7_le63 (init.length + 1) hn9
+    have hUm : U % 2 ^ 64 = U := Nat.mod_eq_of_lt (by omega)
+    rw [hUm]
+    by_cases h64 : 64 ≤ l.toNat
+    · have hcond : 7 * (init.length + 1) < 64 ∧ (l.toNat / 64) % 2 = 1 := by omega
+      simp only [hcond, and_self, if_true, h64]
+      rw [signext (init.length + 1) U (by omega) hn9 hU]
+      simp only [toI64, Out.ok.injEq, Prod.mk.injEq, and_true]
+      have hpos : 0 < 2 ^ (7 * (init.length + 1)) := Nat.pow_pos (by decide)
+      have hm : (U + 2 ^ 64 - 2 ^ (7 * (init.length + 1))) % 2 ^ 64 =
+          U + 2 ^ 64 - 2 ^ (7 * (init.length + 1)) := Nat.mod_eq_of_lt (by omega)
+      rw [hm]
+      have hlo : 2 ^ (7 * (init.length + 1) - 1) ≤ U := by
+        -- the sign bit is set, so U ≥ 64·128^(n-1)
+        have hdec : U = ulebVal init + 2 ^ (7 * init.length) * (l.toNat % 128) := by
+          rw [← hUdef, ulebVal_append]; simp [ulebVal]
+        have : 7 * (init.length + 1) - 1 = 7 * init.length + 6 := by omega
+        rw [this, Nat.pow_add, hdec]
+        have : 2 ^ (7 * init.length) * 2 ^ 6 ≤ 2 ^ (7 * init.length) * (l.toNat % 128) :=
+          Nat.mul_le_mul_left _ (by omega)
+        omega
+      have hge : ¬ U + 2 ^ 64 - 2 ^ (7 * (init.length + 1)) < 2 ^ 63 := by omega
+      simp only [hge, if_false]
+      have : (2 : Int) ^ (7 * (init.length + 1)) = ((2 ^ (7 * (init.length + 1)) : Nat) : Int) := by
+        push_cast; rfl
+      rw [this]
+      omega
+    · have hcond : ¬ (7 * (init.length + 1) < 64 ∧ (l.toNat / 64) % 2 = 1) := by omega
+      simp only [hcond, if_false, h64]
+      simp only [toI64, Out.ok.injEq, Prod.mk.injEq, and_true, hUm]
+      have : U < 2 ^ 63 := by omega
+      simp [this]
+
+
+theorem signedLoop_sound (bs : Bytes) : ∀ (acc : Bytes) (R r s : Nat) (byte : UInt8) (rest : Bytes),
+    acc.length ≤ 9 →
+    signedLoop bs R (7 * acc.length) = .ok (r, s, byte, rest) →
+    ∃ pre, bs = pre ++ rest ∧ IsLebEnc pre ∧ SFits (acc ++ pre) := by
+  induction bs with
+  | nil => intro acc R r s byte rest _ h; simp [signedLoop] at h
+  | cons b tl ih =>
+    intro acc R r s byte rest hk h
+    rw [signedLoop] at h
+    split at h
+    · simp at h
+    · rename_i hc
+      simp only at h
+      split at h
+      · rename_i hb
+        simp only [Out.ok.injEq, Prod.mk.injEq] at h
+        refine ⟨[b], by simp [h.2.2.2], by simpa [IsLebEnc] using hb, by simp; omega, ?_⟩
+        intro h10
+        simp only [List.length_append, List.length_cons, List.length_nil] at h10
+        rw [lastB_concat]
+        omega
+      · rename_i hb
+        have hk8 : acc.length ≤ 8 := by omega
+        have := ih (acc ++ [b]) _ r s byte rest (by simp; omega)
+          (by simpa [Nat.mul_add] using h)
+        obtain ⟨pre, hbs, henc, hfits⟩ := this
+        refine ⟨b :: pre, by simp [hbs], ?_, by simpa using hfits⟩
+        cases pre with
+        | nil => simp [IsLebEnc] at henc
+        | cons c pre => exact ⟨by omega, henc⟩
+
+theorem toI64_range (n : Nat) : -(2 : Int) ^ 63 ≤ toI64 n ∧ toI64 n < 2 ^ 63 := by
+  unfold toI64
+  have := Nat.mod_lt n (show 0 < 2 ^ 64 by decide)
+  split <;> omega
+
+theorem signed_sound (bs : Bytes) (v : Int) (rest : Bytes) (h : signed bs = .ok (v, rest)) :
+    ∃ pre, bs = pre ++ rest ∧ IsLebEnc pre ∧ pre.length ≤ 10 ∧ v = slebVal pre ∧
+      -(2 : Int) ^ 63 ≤ v ∧ v < 2 ^ 63 := by
+  have hrange : -(2 : Int) ^ 63 ≤ v ∧ v < 2 ^ 63 := by
+    unfold signed at h
+    cases hl : signedLoop bs 0 0 with
+    | ok p =>
+      obtain ⟨a, b, c, d⟩ := p
+      rw [hl] at h
+      simp only [Out.ok.injEq, Prod.mk.injEq] at h
+      rw [← h.1]; exact toI64_range _
+    | err e => rw [hl] at h; simp at h
+    | panic w => rw [hl] at h; simp at h
+    | diverge => rw [hl] at h; simp at h
+  have hex : ∃ r s byte, signedLoop bs 0 (7 * ([] : Bytes).length) = .ok (r, s, byte, rest) := by
+    unfold signed at h
+    cases hl : signedLoop bs 0 0 with
+    | ok p =>
+      obtain ⟨a, b, c, d⟩ := p
+      rw [hl] at h
+      simp only [Out.ok.injEq, Prod.mk.injEq] at h
+      exact ⟨a, b, c, by simp [h.2]⟩
+    | err e => rw [hl] at h; simp at h
+    | panic w => rw [hl] at h; simp at h
+    | diverge => rw [hl] at h; simp at h
+  obtain ⟨r, s, byte, hloop⟩ := hex
+  obtain ⟨pre, hbs, henc, hfits⟩ := signedLoop_sound bs [] 0 r s byte rest (by simp) hloop
+  have hc := signed_complete pre rest henc (by simpa using hfits)
+  rw [← hbs, h] at hc
+  simp only [Out.ok.injEq, Prod.mk.injEq, and_true] at hc
+  exact ⟨pre, hbs, henc, by simpa using hfits.1, hc, hrange⟩
+
+/-- a complete number is never reported as truncated -/
+theorem signedLoop_enc (pre : Bytes) : ∀ (rest : Bytes) (r s : Nat), IsLebEnc pre →
+    (∃ a b c, signedLoop (pre ++ rest) r s = .ok (a, b, c, rest)) ∨
+      signedLoop (pre ++ rest) r s = .err .rBadSignedLeb128 := by
+  induction pre with
+  | nil => intro _ _ _ h; simp [IsLebEnc] at h
+  | cons b tl ih =>
+    intro rest r s henc
+    rw [List.cons_append, signedLoop]
+    split
+    · right; rfl
+    · cases tl with
+      | nil =>
+        simp only [IsLebEnc] at henc
+        left; simp [henc]
+      | cons c tl =>
+        simp only [IsLebEnc] at henc
+        have hnb : ¬ b.toNat < 128 := by omega
+        simp only [hnb, if_false]
+        exact ih rest _ _ henc.2
+
+theorem signed_enc (pre rest : Bytes) (henc : IsLebEnc pre) :
+    (∃ v, signed (pre ++ rest) = .ok (v, rest)) ∨ signed (pre ++ rest) = .err .rBadSignedLeb128 := by
+  unfold signed
+  rcases signedLoop_enc pre rest 0 0 henc with ⟨a, b, c, h⟩ | h
+  · left; rw [h]; exact ⟨_, rfl⟩
+  · right; rw [h]
+
+/-- among encodings of at most 10 bytes, `SFits` is exactly "the value fits in an i64" -/
+theorem sfits_of_range (pre : Bytes) (henc : IsLebEnc pre) (hlen : pre.length ≤ 10)
+    (hlo : -(2 : Int) ^ 63 ≤ slebVal pre) (hhi : slebVal pre < 2 ^ 63) : SFits pre := by
+  refine ⟨hlen, ?_⟩
+  intro h10
+  obtain ⟨init, l, rfl, hl⟩ := isLebEnc_concat pre henc
+  rw [lastB_concat]
+  rw [slebVal_concat init l hl] at hlo hhi
+  have hi := ulebVal_lt init
+  have h9 : init.length = 9 := by simpa using h10
+  rw [ulebVal_append] at hlo hhi
+  simp only [ulebVal, Nat.mul_zero, Nat.add_zero, Nat.mod_eq_of_lt hl] at hlo hhi
+  rw [h9] at hi hlo hhi
+  have h70 : (2 : Int) ^ (7 * (9 + 1)) = 128 * 2 ^ 63 := by decide
+  rw [h70] at hlo hhi
+  by_cases h64 : 64 ≤ l.toNat
+  · simp only [h64, if_true] at hlo hhi
+    right; omega
+  · simp only [h64, if_false] at hlo hhi
+    left; omega
+
+theorem signed_reject (pre rest : Bytes) (henc : IsLebEnc pre)
+    (hbad : 10 < pre.length ∨ slebVal pre < -(2 : Int) ^ 63 ∨ 2 ^ 63 ≤ slebVal pre) :
+    signed (pre ++ rest) = .err .rBadSignedLeb128 := by
+  rcases signed_enc pre rest henc with ⟨v, hv⟩ | h
+  · obtain ⟨pre', hbs, henc', hlen, hval, hlo, hhi⟩ := signed_sound _ _ _ hv
+    obtain ⟨rfl, _⟩ := isLebEnc_unique pre pre' rest rest henc henc' hbs
+    omega
+  · exact h
+
+
+theorem encodeSFuel_spec (fuel : Nat) : ∀ (v : Int),
+    -(64 * (128 : Int) ^ fuel) ≤ v → v < 64 * (128 : Int) ^ fuel →
+    IsLebEnc (encodeSFuel (fuel + 1) v) ∧ slebVal (encodeSFuel (fuel + 1) v) = v ∧
+    (encodeSFuel (fuel + 1) v).length ≤ fuel + 1 ∧ 1 ≤ (encodeSFuel (fuel + 1) v).length ∧
+    (encodeSFuel (fuel + 1) v).length = sizeSFuel (fuel + 1) v := by
+  induction fuel with
+  | zero =>
+    intro v hlo hhi
+    simp only [Int.pow_zero, Int.mul_one] at hlo hhi
+    have hd : v / 64 = 0 ∨ v / 64 = -1 := by omega
+    have hb : (UInt8.ofNat ((v % 256).toNat % 128)).toNat = (v % 256).toNat % 128 := by simp; omega
+    simp only [encodeSFuel, sizeSFuel, hd, if_true, IsLebEnc, slebVal, hb, List.length_cons, List.length_nil]
+    refine ⟨by omega, ?_, by omega, by omega, by trivial⟩
+    split <;> omega
+  | succ n ih =>
+    intro v hlo hhi
+    rw [encodeSFuel, sizeSFuel]
+    by_cases hd : v / 64 = 0 ∨ v / 64 = -1
+    · have hb : (UInt8.ofNat ((v % 256).toNat % 128)).toNat = (v % 256).toNat % 128 := by simp; omega
+      simp only [hd, if_true, IsLebEnc, slebVal, hb, List.length_cons, List.length_nil]
+      refine ⟨by omega, ?_, by omega, by omega, by trivial⟩
+      split <;> omega
+    · rw [Int.pow_succ] at hlo hhi
+      have hP : (0 : Int) < 128 ^ n := Int.pow_pos (by decide)
+      generalize (128 : Int) ^ n = P at *
+      obtain ⟨henc, hval, hlen, hlen1, hsz⟩ := ih (v / 64 / 2) (by omega) (by omega)
+      have hb : (UInt8.ofNat ((v % 256).toNat % 128 + 128)).toNat = (v % 256).toNat % 128 + 128 := by
+        simp; omega
+      simp only [hd, if_false, List.length_cons]
+      generalize hrec : encodeSFuel (n + 1) (v / 64 / 2) = tl at *
+      cases tl with
+      | nil => simp at hlen1
+      | cons c tl =>
+        refine ⟨⟨by omega, henc⟩, ?_, by simp at hlen ⊢; omega, by omega, by simp at hsz ⊢; omega⟩
+        rw [slebVal, hval, hb]
+        omega
+
+theorem encodeS_spec (v : Int) (hlo : -(2 : Int) ^ 63 ≤ v) (hhi : v < 2 ^ 63) :
+    IsLebEnc (encodeS v) ∧ slebVal (encodeS v) = v ∧ (encodeS v).length ≤ 10 ∧
+      1 ≤ (encodeS v).length ∧ (encodeS v).length = sizeS v := by
+  have h : (64 : Int) * 128 ^ 9 = 2 ^ 69 := by decide
+  exact encodeSFuel_spec 9 v (by rw [h]; omega) (by rw [h]; omega)
+
+theorem signed_roundtrip (v : Int) (hlo : -(2 : Int) ^ 63 ≤ v) (hhi : v < 2 ^ 63) (rest : Bytes) :
+    signed (encodeS v ++ rest) = .ok (v, rest) := by
+  obtain ⟨henc, hval, hlen, _, _⟩ := encodeS_spec v hlo hhi
+  have hf := sfits_of_range (encodeS v) henc hlen (by rw [hval]; exact hlo) (by rw [hval]; exact hhi)
+  have := signed_complete (encodeS v) rest henc hf
+  rw [hval] at this; exact this
+
 end Gimli.Leb
